@@ -218,7 +218,7 @@ def witness_search(pid, budget_s=600, tests=None):
     tests = tests if tests is not None else WITNESS_TESTS.get(pid, [])
     if not tests:
         return None
-    env = dict(os.environ, CARGO_NET_OFFLINE='true', CARGO_TARGET_DIR=HARNESS_TARGET)
+    env = dict(os.environ, CARGO_NET_OFFLINE='true', CARGO_TARGET_DIR=HARNESS_TARGET, WITNESS_PROP=pid)   # shared searches report only this property's clauses
     for t in tests:
         try:
             p = subprocess.run(['cargo', 'test', '--offline', '--manifest-path', os.path.join(VERIF, 'harness', 'Cargo.toml'), '--test', t, '--', '--test-threads', '4'],
@@ -279,10 +279,23 @@ def kill_matrix(pid, units):
     return out
 
 
+def incomplete_reason(ur, f):
+    """why the function this obligation belongs to cannot be decided by its contracts on this tree (None if it can): an anchor of its
+    contract text vanished, it is - or calls - a function the contracts do not know (and R17 could not inline), or its loops changed"""
+    inc = getattr(ur.gen, 'incomplete', {})
+    fn = f.fn or ''
+    for k, why in inc.items():
+        if fn == k or fn.startswith(k + '#'):
+            return '; '.join(why)
+    return None
+
+
 def is_primary(ur, f):
     """a failed obligation that states the property or an interface between functions: a NAMED clause, a postcondition, a precondition at a
     call, or a panic site (overflow, bounds, assert!/expect/unwrap, termination).  Auxiliary: unnamed loop invariants, ghost assertions
     and proof hints of the contracts - when only those fail, the proof ARGUMENT broke, which says nothing about the property."""
+    if incomplete_reason(ur, f):
+        return False          # the proof text of this function is structurally incomplete on this tree: 'needs contract', not 'violation'
     for m in f.markers:
         mk = ur.gen.markers[m]
         nm = mk.get('name')
@@ -449,6 +462,8 @@ def run_property(pid, tier='quick', seed=0, replay=None):
             'solver': 'z3 via verus 0.2026.09.13', 'smt_ms': smt,
             'samples': samples,
             'known_findings_reported': [f.oblig for (_, f) in known],
+            'helpers_inlined_R17': sorted(set(x for ur in unit_runs for x in getattr(ur.gen, 'inlined', []))),
+            'functions_needing_contract_on_this_tree': {k: v for ur in unit_runs for k, v in getattr(ur.gen, 'incomplete', {}).items()},
             'retry_after_failure': retried,
             'units': P['units'],
             'undecided': undecided,
@@ -563,11 +578,12 @@ def main(argv):
     if viol:
         path = write_replay(pid, a.tier, viol, unit_runs, witness)
         for (ur, f) in viol:
-            print('  failed obligation: %s%s' % (f.oblig, '' if is_primary(ur, f) else '   [auxiliary]'))
+            inc = incomplete_reason(ur, f)
+            print('  failed obligation: %s%s' % (f.oblig, '' if is_primary(ur, f) else ('   [needs contract: %s]' % inc[:200] if inc else '   [auxiliary]')))
         if not witness and not any(is_primary(ur, f) for (ur, f) in viol):
             # only auxiliary obligations (unnamed loop invariants, ghost assertions, proof hints) failed and no failing input was found:
             # the proof argument no longer goes through for this body - undecided, not a violation
-            print('UNDECIDED property=%s reason=only auxiliary proof obligations failed (the argument of the proof broke on this body; no clause that states the property, no interface contract, no panic site) and the witness search found no failing input; details: %s' % (pid, path))
+            print('UNDECIDED property=%s reason=only auxiliary proof obligations failed (the argument of the proof broke on this body, or the body changed shape so that its contracts no longer attach: no decidable clause that states the property, no interface contract, no panic site) and the witness search found no failing input; details: %s' % (pid, path))
             return 2
         suffix = '' if witness else ' no-failing-input-found'
         print('VIOLATION property=%s replay=%s%s' % (pid, path, suffix))
